@@ -167,3 +167,42 @@ Theorem C24_conv_sum_bounds : forall a b rate, 0 < rate -> 0 <= a -> 0 <= b ->
   conv a rate ts_rate + conv b rate ts_rate <= conv (a + b) rate ts_rate <= conv a rate ts_rate + conv b rate ts_rate + 1.
 Proof. exact conv_sum_le. Qed.
 Print Assumptions C24_conv_sum_bounds.
+
+(* ---------------- call-site inventory (Model/C24_CallSites.v tied to gen/C24_Calls.v) ---------------- *)
+From Coq Require Import String.
+Require Import MTX.Model.C24_CallSites MTX.Proofs.C24_CallSites MTXGen.C24_Calls.
+
+(* the model's table IS the list of helper calls of the current sources (value, source rate, destination rate of each) *)
+Theorem C24_call_sites_tied : map cs_key call_table = call_sites /\ Z.of_nat (List.length call_table) = call_site_count.
+Proof. split; [exact call_table_tied | exact call_table_counted]. Qed.
+Print Assumptions C24_call_sites_tied.
+
+(* every row: the call's result is the exact conversion of the quantity the row names *)
+Theorem C24_call_sites_exact : Forall (fun s => forall x y i spf to from,
+  scale_ok to from \/ scale_rates to from ->
+  in_int64 x -> in_int64 (i * spf) -> in_int64 (qty_value (cs_qty s) x y i spf) ->
+  in_int64 (Z.quot (qty_value (cs_qty s) x y i spf * to) from) ->
+  site_result muldiv_w (cs_qty s) x y i spf to from = Z.quot (qty_value (cs_qty s) x y i spf * to) from) call_table.
+Proof. exact call_table_rows_exact. Qed.
+Print Assumptions C24_call_sites_exact.
+
+(* the rows that derive per-frame timestamps *)
+Theorem C24_call_sites_per_frame :
+  map cs_where (filter (fun s => is_frame (cs_qty s)) call_table) =
+  ["internal/protocols/mpegts/from_stream.go FromStream"%string;
+   "internal/recorder/format_mpegts.go (*formatMPEGTS).initialize"%string].
+Proof. exact call_table_frame_sites. Qed.
+Print Assumptions C24_call_sites_per_frame.
+
+(* converting the parts of a row's quantity separately is not the conversion of the quantity *)
+Theorem C24_frame_row_split_refuted : exists x i spf to from,
+  scale_rates to from /\
+  wrap64 (muldiv_w x to from + wrap64 (i * muldiv_w spf to from)) <> Z.quot (qty_value (QFrame "") x 0 i spf * to) from.
+Proof. exact frame_row_split_refuted. Qed.
+Print Assumptions C24_frame_row_split_refuted.
+
+Theorem C24_diff_row_split_refuted : exists x y to from,
+  scale_ok to from /\
+  muldiv_w x to from - muldiv_w y to from <> Z.quot (qty_value QDiff x y 0 0 * to) from.
+Proof. exact diff_row_split_refuted. Qed.
+Print Assumptions C24_diff_row_split_refuted.
